@@ -108,6 +108,6 @@ example : plan true ran = noKeyPlan ran âˆ§ (plan true ran).reason = .block := â
 set_option maxRecDepth 100000 in
 /-- the code this property's model mirrors still has the shape the model was written against (control-flow
     skeletons regenerated from /repo on every run, Model/SkeletonsMore) -/
-theorem facts_model_skeleton : Generated.F12.clone = SkeletonsMore.clone := by decide +kernel
+theorem facts_model_skeleton : Generated.F12.clone = SkeletonsMore.clone := by rfl
 
 end Coercion.C18
